@@ -507,7 +507,8 @@ def sample_repr(sc):
     }
 
 
-BUDGET = {"quick": 700, "thorough": 5000}
+BUDGET = {"quick": 700, "thorough": 3000}
+CHUNK = 8  # a base scenario expands into hundreds of fault plans
 WALL_CAP = {"quick": 240, "thorough": 3000}
 RULE = (
     "run i derives a base scenario (controller parameters, file-name formats, directory layout, metric history on the k/8 grid, "
